@@ -7,11 +7,12 @@ from vlib.term import to_coq, z
 
 ID = 'C02'
 PROP_FILE = 'Props/C02.v'
-EVAL_FILES = ['Oracle/C02Oracle.v']
+EXTRA_PROP_FILES = ['Props/C02Atomic.v']     # K1: fetch-add / CAS accessors are one atomic RMW each (ordering table from the source)
+EVAL_FILES = ['Oracle/C02Oracle.v', 'Oracle/C02SoloOracle.v']
 CRATES = ['c02']
 MODES = ['debug']
 IMPORTS = ('Require Import V.Base.MachineInt V.Model.LogBase V.Model.Descriptor V.Model.Sched V.Model.AppenderThreads '
-           'V.Oracle.C02Oracle.')
+           'V.Oracle.C02Oracle V.Oracle.C02SoloOracle.')
 PER_CASE_TIMEOUT = 5.0
 RULE = ('2-3 publisher threads (each with its own Publication handle over one in-memory log of 1 KiB / 2 KiB / 4 KiB terms) x 1-4 '
         'messages (unfragmented, fragmented, term-end tripping, several tripping together; lengths 0..max message length and one '
@@ -20,7 +21,9 @@ RULE = ('2-3 publisher threads (each with its own Publication handle over one in
         'over at term counts 0/1/2/7 and offsets that put the term end within reach; an environment thread moves the publication '
         'limit in some cases. Compared: the trace of shared accesses (accessor, region, offset, length, operands, value read), the '
         'per-attempt results of every thread and the final dump (count, raw tails, every non-zero word of the three partitions). '
-        'A case is non-trivial when at least two publishers are pre-empted at least once; distinct = distinct (geometry, messages, schedule)')
+        'A case is non-trivial when at least two publishers are pre-empted at least once; distinct = distinct (geometry, messages, schedule). '
+        'Single-publisher cases (kind solo) are additionally checked against the SEQUENTIAL model of C01/C04 (theorem C02_collapse): '
+        'results and dump of the concurrent harness = Publication.pub_offer folded over the message list')
 ASSUMPTIONS = [
     'interleavings are sequentially consistent at the granularity of the accesses hook H2 reports (one AtomicBuffer accessor call = one step)',
     'media driver contract (DESIGN 4.5): a partition is zero when the log rotates into it and no publisher still holds an uncommitted '
@@ -80,10 +83,24 @@ def model_expr(c, mode):
                                           coq_nat_list(c['sched']), stops_expr(c))
 
 
+def is_solo(c):
+    """exactly one thread, a publisher, no crash point: the collapse check (theorem C02_collapse) applies"""
+    return (len(c['threads']) == 1 and c['threads'][0]['k'] == 'P' and not any(s is not None for s in (c.get('stops') or []))
+            and c['mtu'] <= 2 ** 28)
+
+
 def oracle_expr(c, mode, obs):
     if obs[0] != 'tuple':
         return 'false'
-    return 'holds_C02 %s %s %s' % (cfg_expr(c), offers_expr(c), to_coq(obs))
+    e = 'holds_C02 %s %s %s' % (cfg_expr(c), offers_expr(c), to_coq(obs))
+    if is_solo(c):
+        # the implementation run alone must also agree with the SEQUENTIAL model of C01 / C04 (Publication.pub_offer folded
+        # over the message list with the thread's retry loop)
+        t = c['threads'][0]
+        msgs = '[' + '; '.join('payload %s %s' % (z(k), z(l)) for k, l in t['msgs']) + ']'
+        e = '(%s) && solo_ok %s %s %s %d%%nat %s %s' % (e, 'Debug' if mode == 'debug' else 'Release', cfg_expr(c), msgs, t['budget'],
+                                                        z(c['limit']), to_coq(obs))
+    return e
 
 
 def nontrivial(c):
@@ -131,7 +148,8 @@ def base_case(rng, bits=None, npub=2, nmsg=None, env=False, near_end=None):
     tl = 1 << bits
     mtu = rng.choice([64, 96, 128, 256])
     init = rng.choice([5, 0, -3, 2**31 - 2, 2**31 - 1, -2**31, rng.randrange(-2**31, 2**31)])
-    n0 = rng.choice([0, 0, 1, 2, 7])
+    # term counts far from 0 as well: stream positions beyond 2^31 and 2^32 (term count <= 2^30 is the model's domain)
+    n0 = rng.choice([0, 0, 1, 2, 7, 2**21, 2**21 + 1, 2**22 + 5, 2**26, 2**30 - 3])
     if near_end is None:
         near_end = rng.random() < 0.6
     maxm = tl // 8
@@ -286,6 +304,23 @@ def generate(rng, tier):
     cases.append(late_cas_case(bits=11, park=10, n0=2, init=2**31 - 2))
     # (6) the known finding
     cases.append(stalled3_case())
+    # (7) one publisher alone (collapse onto the sequential model): unfragmented / fragmented / too long messages, term-end
+    #     trips with and without padding, up to two rotations, back pressure
+    for i in range(400 if big else 40):
+        bits = rng.choice([10, 10, 11])
+        tl = 1 << bits
+        c = base_case(rng, bits=bits, npub=1, nmsg=rng.choice([2, 3, 4, 6, 9]))
+        t = c['threads'][0]
+        if i % 3 == 0:          # fill the term: many middle-sized messages, the limit two terms ahead
+            t['msgs'] = [[k + 1, rng.choice([96, 100, 128, tl // 8, tl // 8 - 1])] for k in range(rng.choice([8, 12, 20]))]
+            c['off0'] = rng.choice([0, tl - 256, tl - 64, tl - 32])
+            c['limit'] = (c['n0'] + 2) * tl
+        if i % 5 == 0:
+            t['msgs'][0][1] = tl // 8 + 1 + i      # TooLong (fragmented) or just long
+        t['budget'] = len(t['msgs']) + rng.choice([0, 1, 3])
+        c['sched'] = [0] * rng.choice([0, 3, 40])
+        c['kind'] = 'solo'
+        cases.append(c)
     return cases
 
 
